@@ -586,7 +586,33 @@ func checkC19(c *Check) {
 		}
 		// the final return after the write loop is reachable without the write only through an empty index entry: it is
 		// dominated by the guards that hold at the write
-		if negGuard(ff.At(r)) || justified(r.Block(), 3) || (okIdx && delOK && dataOK && wr.Block() != r.Block() && blockReaches(wr.Block(), r.Block())) {
+		// a helper's "nothing to do" result (`secret == nil`) merged from several reasons: each way the value can be nil
+		// carries an enumerated reason on its edge
+		viaNilPhi := false
+		for cond, pol := range ff.At(r) {
+			bo, isB := cond.(*ssa.BinOp)
+			if !isB || (bo.Op != token.EQL && bo.Op != token.NEQ) || !isNilConst(bo.Y) || (bo.Op == token.EQL) != pol {
+				continue
+			}
+			pv, isPhi := bo.X.(*ssa.Phi)
+			if !isPhi {
+				continue
+			}
+			all, any := true, false
+			for k, e := range pv.Edges {
+				if known, isNil := nilnessOf(e); known && !isNil {
+					continue
+				}
+				any = true
+				if !negGuard(ff.OnEdge(pv.Block().Preds[k], pv.Block())) && !justified(pv.Block().Preds[k], 2) {
+					all = false
+				}
+			}
+			if all && any {
+				viaNilPhi = true
+			}
+		}
+		if viaNilPhi || negGuard(ff.At(r)) || justified(r.Block(), 3) || (okIdx && delOK && dataOK && wr.Block() != r.Block() && blockReaches(wr.Block(), r.Block())) {
 			c.Pass("C19.R1", fmt.Sprintf("skip-reason/return#%d", i+1), P.Pos(instrPos(r)), "ignored for an enumerated reason")
 			continue
 		}
